@@ -753,39 +753,35 @@ theorem handleControls_spec {a a' : Acc} {func seq frameId : Nat} {hs : List Obj
         · -- rejected
           rename_i st hv
           obtain ⟨⟨sc, hsc⟩, hnone, l, hl, hlp⟩ := ctl_run_spec none st none hs a (a.1.cfg.sol - 4)
-          split at h
-          · contradiction
-          · simp only [Option.some.injEq, Prod.mk.injEq] at h
-            obtain ⟨rfl, -⟩ := h
-            have hacc := hnone rfl
-            dsimp only at hacc ⊢
-            generalize ctlFinish (ctlAll none st none hs { acc := a, cap := a.1.cfg.sol - 4 }) = R at *
-            refine ⟨a.1.script, writeAt a.1.solBuf 4 R.out, false, ?_, by simp, [], ?_, by simp, fun _ _ => rfl⟩
-            · rw [hacc]; rfl
-            · rw [hacc]; simp
+          simp only [Option.some.injEq, Prod.mk.injEq] at h
+          obtain ⟨rfl, -⟩ := h
+          have hacc := hnone rfl
+          dsimp only at hacc ⊢
+          generalize ctlFinish (ctlAll none st none hs { acc := a, cap := a.1.cfg.sol - 4 }) = R at *
+          refine ⟨a.1.script, writeAt a.1.solBuf 4 R.out, false, ?_, by simp, [], ?_, by simp, fun _ _ => rfl⟩
+          · rw [hacc]; rfl
+          · rw [hacc]; simp
         · -- accepted
           rename_i hv
           obtain ⟨⟨sc, hsc⟩, -, l, hl, hlp⟩ := ctl_run_spec (some .sbo) 0 a.1.cfg.maxctl hs a (a.1.cfg.sol - 4)
-          split at h
-          · contradiction
-          · simp only [Option.some.injEq, Prod.mk.injEq] at h
-            obtain ⟨rfl, -⟩ := h
-            dsimp only at hsc hl hlp ⊢
-            generalize ctlFinish (ctlAll (some .sbo) 0 a.1.cfg.maxctl hs { acc := a, cap := a.1.cfg.sol - 4 }) = R at *
-            refine ⟨sc, writeAt a.1.solBuf 4 R.out, false, ?_, by simp, l, hl, ?_, fun _ hno => ?_⟩
-            · rw [hsc]; rfl
-            · intro o ho
-              rcases hlp o ho with h | h | ⟨k', g, v, i, obj, st, h1, h2, h3⟩
-              · exact .inl h
-              · exact .inr (.inl h)
-              · simp only [Option.some.injEq] at h1; subst h1
-                refine .inr (.inr ⟨g, v, i, obj, st, ?_, by simp⟩)
-                rw [h2]; simp [kindOf, hf]
-            · exfalso
-              apply hno
-              cases hsel : a.1.select with
-              | none => simp [hsel] at hv
-              | some sel => exact ⟨sel, hsel, by simpa [hsel] using hv⟩
+          simp only [Option.some.injEq, Prod.mk.injEq] at h
+          obtain ⟨rfl, -⟩ := h
+          dsimp only at hsc hl hlp ⊢
+          generalize ctlFinish (ctlAll (some .sbo) 0 a.1.cfg.maxctl hs { acc := a, cap := a.1.cfg.sol - 4 }) = R at *
+          refine ⟨sc, writeAt a.1.solBuf 4 R.out, false, ?_, by simp, l, hl, ?_, fun _ hno => ?_⟩
+          · rw [hsc]; rfl
+          · intro o ho
+            rcases hlp o ho with h | h | ⟨k', g, v, i, obj, st, h1, h2, h3⟩
+            · exact .inl h
+            · exact .inr (.inl h)
+            · simp only [Option.some.injEq] at h1; subst h1
+              refine .inr (.inr ⟨g, v, i, obj, st, ?_, by simp⟩)
+              rw [h2]; simp [kindOf, hf]
+          · exfalso
+            apply hno
+            cases hsel : a.1.select with
+            | none => simp [hsel] at hv
+            | some sel => exact ⟨sel, hsel, by simpa [hsel] using hv⟩
       · rename_i hf4
         split at h
         · -- DIRECT OPERATE
@@ -2805,14 +2801,14 @@ def rejectRun (a : Acc) (st : Nat) (hs : List ObjHdr) : CtlRun :=
 
 /-- **C04.2 (rejection)**: an OPERATE that is not accepted actuates nothing: no callback of any kind is
     emitted, `select` is untouched, and the reply is the echo computed by `ctlAll none st none`, i.e. by the
-    branch of the loop that calls no handler and writes `withStatus obj st` for every object, where
-    `st ∈ {1, 2}` is the verdict (`operateVerdict_status`). -/
+    branch of the loop that calls no handler and writes `withStatus obj st` for every object that fits the
+    solicited buffer (D1 repaired: an echo that does not fit is truncated, not a panic), where
+    `st ∈ {1, 2}` is the verdict (`operateVerdict_status`); IIN2 is clean. -/
 theorem operate_rejected (a : Acc) (seq fid : Nat) (hs : List ObjHdr) (raw : List Nat) (st : Nat)
     (hall : hs.all isControlHdr = true) (hv : operateVerdict a.1 seq fid raw = some st) :
     handleControls a 4 seq fid hs raw =
-      if (rejectRun a st hs).overflow then none else
       some (({ a.1 with solBuf := writeAt a.1.solBuf 4 (rejectRun a st hs).out }, a.2),
-        some (singleResponse seq (if st = 4 then iin2ParamError else 0) (4 + (rejectRun a st hs).out.length))) := by
+        some (singleResponse seq 0 (4 + (rejectRun a st hs).out.length))) := by
   have c := ctlAll_crel none st none hs { acc := a, cap := a.1.cfg.sol - 4 }
   have hacc := c.noCall rfl
   have hst := c.started rfl
@@ -2830,7 +2826,11 @@ theorem operate_rejected (a : Acc) (seq fid : Nat) (hs : List ObjHdr) (raw : Lis
       have := heq.symm.trans hv
       simpa using this
     subst e
-    rw [hfin]
+    have hst4 : ¬ ((!(ctlAll none st' none hs { acc := a, cap := a.1.cfg.sol - 4 }).overflow) = true ∧ st' = 4) := by
+      rintro ⟨-, h4⟩
+      have hv' : operateVerdict a.1 seq fid raw = some st' := hv
+      rcases operateVerdict_status hv' with h | h <;> omega
+    rw [hfin, if_neg hst4]
     unfold rejectRun
     rw [hacc]
   · rename_i heq
